@@ -252,6 +252,18 @@ CLAIMED["C05"] = (
     "F20 are excluded by predicate; the bounded-exhaustive direct drive of WorkQueue is not built yet.",
     "DESIGN.md 3/C05",
 )
+CLAIMED["C06"] = (
+    "fault/stop-point exploration under the deterministic scheduler: generated incremental and plain requests "
+    "x stop kind (aclose after k, abort with three reason kinds before/after the initial result, none) x early "
+    "execution x schedules, with clock-free history invariants each under its own signature",
+    "After the stop the awaiting caller is released at the next quiescence, nothing hangs, and once the consumer "
+    "has followed the documented protocol and the harness gates are released no task or harness resolver is left, "
+    "every started generator source ran its finally exactly once, async_work_finished fired exactly once and "
+    "not before resolvers and sources had settled, and nothing reached the loop's exception handler.",
+    "Stop points are quiescent points chosen by the schedule; harness resolvers honour cancellation; open known "
+    "finding F25 (early execution: hook one iteration early) is excluded by predicate.",
+    "DESIGN.md 3/C06",
+)
 PENDING_REASON = (
     "check under construction in this session (DESIGN.md section 3 has its design); it is not claimed "
     "until it has run quietly on the unchanged tree at several seeds"
